@@ -98,7 +98,8 @@ func inspectFile(filePath string) {
 		log.Printf("error processing file %#v: %v", filePath, err)
 	}
 
-	fmt.Printf("%s: ", info.Path)
+	// file names come from the scanned tree (or an unpacked archive) and are as untrusted as file contents
+	fmt.Printf("%s: ", sanitize(info.Path))
 	printInfo(info, 0)
 }
 
